@@ -27,6 +27,10 @@ def Call(n, *args, spread=False): return {"k": "call", "n": n, "args": list(args
 def ACall(f, *args, spread=False): return {"k": "acall", "f": f, "args": list(args), "spread": spread}
 def Fn(ps, body, name="", va=False): return {"k": "fn", "n": name, "ps": list(ps), "va": va, "b": list(body)}
 def Inc(n): return {"k": "inc", "n": n}
+def Slice(e, lo=None, hi=None, cap=None): return {"k": "slice", "e": e, "lo": [] if lo is None else [lo], "hi": [] if hi is None else [hi], "cap": [] if cap is None else [cap]}
+def OpAsg(t, op, e): return {"k": "opasg", "t": t, "op": op, "e": e}       # t op= e
+def In(l, r): return Bin("in", l, r)
+def Delete(e, key=None): return {"k": "delete", "e": e, "key": [] if key is None else [key]}
 
 def E(e): return {"k": "expr", "e": e}
 def P(x): return E(Call("p", x if isinstance(x, dict) else I(x)))
@@ -317,6 +321,45 @@ def fam_c04_deep(seed, n):
         else:
             prog = acts[a[3]]("a", 1) + stmts + [rd("a"), rd("b"), Ret(I(0))]
         out.append({"id": "c04-d3-%d" % k, "prog": prog})
+    return out
+
+
+def fam_c04_delete():
+    """delete("name") unbinds the name in the CURRENT block only, delete("name", true) the nearest binding: inside every block kind, with the
+    name bound outside, inside, or both; reads after every block."""
+    out = []
+    acts = {"del": lambda: [Delete(S("a"))], "delg": lambda: [Delete(S("a"), B(True))], "vardel": lambda: [Var("a", I(7)), rd("a"), Delete(S("a"))],
+            "vardelg": lambda: [Var("a", I(7)), rd("a"), Delete(S("a"), B(True))], "delgdelg": lambda: [Var("a", I(7)), Delete(S("a"), B(True)), rd("a"), Delete(S("a"), B(True))]}
+    pres = {"set": [Let("a", I(1))], "none": []}
+    for d in (1, 2):
+        for combo in itertools.product(SCOPE_WRAPS, repeat=d):
+            if d == 2 and (combo[0] in (s_cfor, s_while) and combo[1] is combo[0]):
+                continue
+            for pre in pres:
+                for a1 in acts:
+                    for a2 in (("none",) if d == 1 else ("none", "var")):
+                        if d == 2 and pre == "none" and a2 == "none":
+                            continue
+                        c = Ctr(50)
+                        body = acts[a1]() + [rd("a"), Let("b", I(d))]
+                        if d == 2:
+                            body = ([Var("a", I(5))] if a2 == "var" else []) + [rd("a")] + combo[1](body, c) + [rd("a"), rd("b")]
+                        prog = pres[pre] + combo[0](body, c) + [rd("a"), rd("b"), Ret(I(0))]
+                        out.append({"id": "c04-del-%s-%s-%s-%s" % ("_".join(w.__name__[2:] for w in combo), pre, a1, a2), "prog": prog})
+    def add(n, prog): out.append({"id": "c04-del-" + n, "prog": prog})
+    add("param", [FnStmt("f", ["a"], [Delete(S("a")), Ret(Nilco(Id("a"), S("undef")))]), P(Call("f", I(4))), Let("a", I(1)), P(Call("f", I(4))), rd("a"), Ret(I(0))])
+    add("param-global", [Let("a", I(1)), FnStmt("f", ["a"], [Delete(S("a"), B(True)), rd("a"), Delete(S("a"), B(True)), rd("a"), Ret(I(0))]), E(Call("f", I(4))), rd("a"), Ret(I(0))])
+    add("captured", [FnStmt("mk", [], [Var("n", I(5)), Ret(L(Fn([], [Delete(S("n"), B(True)), Ret(I(0))]), Fn([], [Ret(Nilco(Id("n"), S("undef")))])))]),
+                     Let("fs", Call("mk")), P(ACall(Idx(Id("fs"), I(1)))), E(ACall(Idx(Id("fs"), I(0)))), P(ACall(Idx(Id("fs"), I(1)))), rd("n"), Ret(I(0))])
+    add("captured-local-only", [FnStmt("mk", [], [Var("n", I(5)), Ret(L(Fn([], [Delete(S("n")), Ret(I(0))]), Fn([], [Ret(Nilco(Id("n"), S("undef")))])))]),
+                                Let("fs", Call("mk")), E(ACall(Idx(Id("fs"), I(0)))), P(ACall(Idx(Id("fs"), I(1)))), Ret(I(0))])
+    add("module", [Module("mo", [Let("x", I(1)), FnStmt("d", [], [Delete(S("x"), B(True)), Ret(I(0))]), FnStmt("g", [], [Ret(Nilco(Id("x"), S("undef")))])]),
+                   P(ACall(Member(Id("mo"), "g"))), E(ACall(Member(Id("mo"), "d"))), P(ACall(Member(Id("mo"), "g"))), P(Nilco(Member(Id("mo"), "x"), S("undef"))), rd("x"), Ret(I(0))])
+    add("module-outer-untouched", [Let("x", I(9)), Module("mo", [Let("x", I(1)), Delete(S("x")), rd("x")]), rd("x"), Ret(I(0))])
+    add("rebind-after", [Let("a", I(1)), If(B(True), [Delete(S("a"), B(True)), Let("a", I(2)), rd("a")]), rd("a"), Ret(I(0))])
+    add("loop-var", [ForIn("i", L(I(1), I(2)), [Delete(S("i")), rd("i")]), rd("i"), Ret(I(0))])
+    add("catch-var", [Try([Throw(S("t"))], "e", [rd("e"), Delete(S("e")), rd("e")]), rd("e"), Ret(I(0))])
+    add("function-name", [FnStmt("f", [], [Ret(I(1))]), Delete(S("f")), P(Nilco(Call("f"), S("gone"))), Ret(I(0))])
     return out
 
 
@@ -662,6 +705,92 @@ def fam_c07():
             add("tlist-%s-%s" % (ty[2:], bad), [Try([P(Len_(TL(ty, BAD if bad == 0 else PV(1, I(1)), BAD if bad == 1 else PV(2, I(2)), PV(3, I(3)))))], "e", [P(60)]), Ret(I(0))])
         add("tlist-badval-%s" % bad, [Try([P(Len_(TL("[]int64", PV(1, I(1)), PV(2, S("x")), PV(3, I(3)))))], "e", [P(60)]), Ret(I(0))])
         add("mapkeys-%s" % bad, [Try([P(M((BAD if bad == 0 else PV(1, S("a")), PV(2, I(1))), (PV(3, S("b")), BAD if bad == 1 else PV(4, I(2)))))], "e", [P(60)]), Ret(I(0))])
+    # slice expressions: the sliced operand, then every bound that is written, once each, left to right; a failing or unacceptable bound ends it
+    base = L(I(5), I(6), I(7), I(8))
+    def sl(name, e): add("slice-" + name, [Let("la", base), Try([P(e)], "e", [P(60)]), P(61), Ret(I(0))])
+    for lo in (None, 0, 1):
+        for hi in (None, 2, 4):
+            for cap in (None, 4):
+                if (cap is not None and hi is None) or (lo is None and hi is None):
+                    continue                                   # a[:] and a[lo::cap] are not in the grammar
+                nm = "%s-%s-%s" % (lo, hi, cap)
+                sl("lit-" + nm, Slice(PV(1, base), None if lo is None else PV(2, I(lo)), None if hi is None else PV(3, I(hi)), None if cap is None else PV(4, I(cap))))
+                sl("var-" + nm, Slice(Id("la"), None if lo is None else PV(2, I(lo)), None if hi is None else PV(3, I(hi)), None if cap is None else PV(4, I(cap))))
+    for bad in range(4):
+        o = [BAD if j == bad else PV(j + 1, v) for j, v in enumerate((base, I(1), I(3), I(4)))]
+        sl("bad%d" % bad, Slice(o[0], o[1], o[2], o[3]))
+        if bad < 3:
+            sl("bad%d-nocap" % bad, Slice(o[0], o[1], o[2]))
+    for nm, lo, hi, cap in (("neg-lo", -1, 2, None), ("hi-beyond", 0, 5, None), ("lo-above-hi", 3, 2, None), ("cap-below-hi", 0, 3, 2), ("lo-at-len", 4, 4, None), ("empty", 2, 2, None),
+                            ("cap-at-hi", 1, 2, 2)):
+        sl("range-" + nm, Slice(PV(1, base), I(lo), I(hi), None if cap is None else I(cap)))            # constant bounds: the rejection is decided
+        sl("range-probe-" + nm, Slice(PV(1, base), PV(2, I(lo)), PV(3, I(hi)), None if cap is None else PV(4, I(cap))))
+    for nm, item in (("int", I(3)), ("nil", NIL), ("bool", B(False)), ("map", M((S("k"), I(1))))):
+        sl("noelems-" + nm, Slice(PV(1, item), I(0), I(1)))
+    sl("of-slice", Slice(Slice(PV(1, base), PV(2, I(1)), PV(3, I(4))), PV(4, I(1)), PV(5, I(2))))
+    sl("of-call", Slice(Call("pv", PV(1, I(9)), PV(2, base)), PV(3, I(0)), PV(4, I(2))))
+    sl("index-of-slice", Idx(Slice(PV(1, base), PV(2, I(1)), PV(3, I(3))), PV(4, I(1))))
+    sl("as-args", Call("pn", Slice(PV(1, base), PV(2, I(0)), PV(3, I(1))), Slice(Id("la"), PV(4, I(2)))))
+    sl("bounds-from-len", Slice(Id("la"), PV(1, Bin("-", Len_(Id("la")), I(2))), PV(2, Len_(Id("la")))))
+    # t op= e stands for t = t op e: the operands inside t run for the read (before e) and again for the store (after it) -- exactly twice
+    opre = [Let("xa", I(10)), Let("la", L(I(5), I(6), I(7))), Let("ma", M((S("k"), I(3)))), Let("ll", L(L(I(1), I(2)), L(I(3)))), Let("lst", L(I(1)))]
+    ofin = Ret(L(Id("xa"), Id("la"), Id("ma"), Id("ll"), Id("lst")))
+    def oa(name, stmts): add("opasg-" + name, opre + [Try(stmts, "e", [P(60)]), P(61), ofin])
+    for op in ("+", "-", "*"):
+        oa("var%s" % op, [E(OpAsg(Id("xa"), op, PV(1, I(3))))])
+        oa("item%s" % op, [E(OpAsg(Idx(Id("la"), PV(1, I(1))), op, PV(2, I(3))))])
+        oa("mapitem%s" % op, [E(OpAsg(Idx(Id("ma"), PV(1, S("k"))), op, PV(2, I(3))))])
+        oa("member%s" % op, [E(OpAsg(Member(Id("ma"), "k"), op, PV(1, I(3))))])
+        oa("nested%s" % op, [E(OpAsg(Idx(Idx(Id("ll"), PV(1, I(0))), PV(2, I(1))), op, PV(3, I(4))))])
+    oa("item-badindex", [E(OpAsg(Idx(Id("la"), BAD), "+", PV(2, I(3))))])
+    oa("item-badrhs", [E(OpAsg(Idx(Id("la"), PV(1, I(1))), "+", BAD))])
+    oa("item-range", [E(OpAsg(Idx(Id("la"), PV(1, I(3))), "+", PV(2, I(3))))])           # the READ fails: e is never evaluated
+    oa("item-negative", [E(OpAsg(Idx(Id("la"), PV(1, I(-1))), "+", PV(2, I(3))))])
+    oa("nested-range", [E(OpAsg(Idx(Idx(Id("ll"), PV(1, I(1))), PV(2, I(1))), "+", PV(3, I(4))))])
+    oa("undefined", [E(OpAsg(Id("nosuch"), "+", PV(1, I(3))))])
+    oa("var-badrhs", [E(OpAsg(Id("xa"), "-", BAD))])
+    oa("append-value", [E(OpAsg(Id("lst"), "+", PV(1, I(9)))), E(OpAsg(Id("lst"), "+", PV(2, I(8))))])
+    oa("append-list", [E(OpAsg(Id("lst"), "+", PV(1, L(I(9), I(8)))))])
+    oa("append-nested", [E(OpAsg(Idx(Id("ll"), PV(1, I(1))), "+", PV(2, I(9))))])
+    oa("mod-zero", [E(OpAsg(Id("xa"), "-", PV(1, I(10)))), E(OpAsg(Idx(Id("la"), PV(2, I(0))), "*", Id("xa")))])
+    oa("string", [Let("sx", S("a")), E(OpAsg(Id("sx"), "+", PV(1, S("b")))), E(OpAsg(Id("sx"), "+", PV(2, I(7)))), P(Id("sx"))])
+    oa("twice", [E(OpAsg(Idx(Id("la"), PV(1, I(0))), "+", PV(2, I(1)))), E(OpAsg(Idx(Id("la"), PV(3, I(0))), "+", PV(4, I(1))))])
+    oa("cfor-post", [CFor(Let("i", I(0)), Bin("<", Id("i"), I(6)), OpAsg(Id("i"), "+", PV(1, I(2))), [P(Id("i"))])])
+    oa("in-function", [FnStmt("f", ["v"], [E(OpAsg(Id("v"), "+", PV(1, I(1)))), E(OpAsg(Id("xa"), "+", Id("v"))), Ret(Id("v"))]), P(Call("f", PV(2, I(4))))])
+    # membership: item, then list, each once; a right operand without elements fails after both have run
+    def im(name, e): add("in-" + name, [Let("la", L(I(1), I(2), I(3))), Try([P(e)], "e", [P(60)]), P(61), Ret(I(0))])
+    for v in (2, 5):
+        im("lit-%d" % v, In(PV(1, I(v)), PV(2, L(I(1), I(2), I(3)))))
+        im("var-%d" % v, In(PV(1, I(v)), Id("la")))
+    im("bad-item", In(BAD, PV(2, L(I(1)))))
+    im("bad-list", In(PV(1, I(1)), BAD))
+    for nm, r in (("int", I(3)), ("nil", NIL), ("str", S("abc")), ("map", M((S("k"), I(1))))):
+        im("noelems-" + nm, In(PV(1, I(1)), PV(2, r)))
+    im("empty", In(PV(1, I(1)), PV(2, L())))
+    im("nil-in", In(PV(1, NIL), PV(2, L(NIL))))
+    im("list-in", In(PV(1, L(I(1))), PV(2, L(L(I(2)), L(I(1))))))
+    im("str-in", In(PV(1, S("b")), PV(2, L(S("a"), S("b")))))
+    im("nested-operands", In(Bin("+", PV(1, I(1)), PV(2, I(1))), Bin("+", PV(3, L(I(1))), PV(4, L(I(2))))))
+    im("in-cond", Tern(In(PV(1, I(2)), Id("la")), PV(2, I(7)), PV(3, I(8))))
+    add("in-if", [Let("la", L(I(1), I(2))), If(In(PV(1, I(2)), PV(2, Id("la"))), [P(50)], els=[P(51)]), While(In(PV(3, I(2)), Id("la")), [Let("la", L()), P(52)]), Ret(I(0))])
+    add("in-switch", [Let("la", L(I(1), I(2))), Switch(In(PV(1, I(1)), Id("la")), [([B(False)], [P(50)]), ([B(True)], [P(51)])]), Ret(I(0))])
+    # delete(m, k): the map, then the key, each once
+    dpre = [Let("ma", M((S("k"), I(1)), (S("j"), I(2)), (I(3), I(4)))), Let("xa", I(3))]
+    def dl(name, stmts): add("delete-" + name, dpre + [Try(stmts, "e", [P(60)]), P(61), Ret(L(Nilco(Id("ma"), S("undef")), Nilco(Id("xa"), S("undef"))))])
+    for key in (S("k"), S("zz"), I(3), NIL):
+        dl("key-%s" % json.dumps(key.get("s", key.get("i", "nil"))).strip('"'), [Delete(Id("ma"), PV(1, key)), P(Len_(Id("ma")))])
+    dl("badkey", [Delete(Id("ma"), BAD)])
+    dl("baditem", [Delete(BAD, PV(1, S("k")))])
+    dl("unhashable", [Delete(Id("ma"), PV(1, L(I(1))))])
+    dl("nokey", [Delete(Id("ma"))])
+    dl("of-int", [Delete(PV(1, I(3)), PV(2, I(1)))])
+    dl("of-nil", [Delete(PV(1, NIL), PV(2, I(1)))])
+    dl("of-list", [Delete(PV(1, L(I(1))), PV(2, I(0)))])
+    dl("name", [Delete(PV(1, S("xa")))])
+    dl("name-flag", [Delete(PV(1, S("xa")), PV(2, B(True)))])
+    dl("name-flag-false", [Delete(PV(1, S("xa")), PV(2, B(False)))])
+    dl("name-unbound", [Delete(PV(1, S("nosuch")))])
+    dl("twice", [Delete(Id("ma"), PV(1, S("k"))), Delete(Id("ma"), PV(2, S("k"))), Delete(Id("ma"), PV(3, S("j")))])
     # nested trees: left-to-right through nesting
     add("nested", [P(Bin("+", Bin("*", PV(1, I(2)), PV(2, I(3))), Call("pv", PV(3, I(3)), Bin("-", PV(4, I(9)), PV(5, I(1)))))), Ret(I(0))])
     add("nested-calls", [FnStmt("f", ["a", "b"], [Ret(Bin("+", Id("a"), Id("b")))]), P(Call("f", Call("f", PV(1, I(1)), PV(2, I(2))), Call("f", PV(3, I(3)), PV(4, I(4))))), Ret(I(0))])
